@@ -176,6 +176,84 @@ Fixpoint rename_loop (kargs : list (string * string)) (n i : nat) (ps : pset) : 
 Definition rename (kargs : list (string * string)) (ps : pset) : option pset :=
   rename_loop kargs (List.length (ps_arguments ps)) 0 ps.
 
+(* ------------------------------------------------------------------ building a primitive set *)
+(* What PrimitiveSetTyped.__init__, _add, addPrimitive / addADF, addTerminal and addEphemeralConstant do
+   to pset.arguments, pset.mapping and the *names* present in pset.context (the per-type tables
+   pset.primitives / pset.terminals belong to C11).  None = AssertionError / Exception. *)
+Fixpoint drop_last (s : string) : string :=
+  match s with
+  | EmptyString => EmptyString
+  | String c r => match r with EmptyString => EmptyString | _ => String c (drop_last r) end
+  end.
+Definition unquote (s : string) : string := match s with String _ r => drop_last r | EmptyString => EmptyString end.
+
+(* str(value): the key under which _add registers a terminal (Terminal.name = str(terminal)) *)
+Definition pystr (c : cst) : string :=
+  match c with
+  | CLit s t => if Nat.eqb t t_str then unquote s else s
+  | _ => repr c
+  end.
+
+(* "{prefix}{index}".format(prefix=prefix, index=i) *)
+Definition arg_name (prefix : string) (i : nat) : string := prefix ++ repr_Z (Z.of_nat i).
+
+Fixpoint init_loop (prefix : string) (i : nat) (tys : list ty) (ps : pset) : pset :=
+  match tys with
+  | [] => ps
+  | t :: r =>
+      let a := arg_name prefix i in
+      init_loop prefix (S i) r
+        (mkpset (ps_arguments ps ++ [a])%list (ps_argvalue ps ++ [a])%list (dset a (NArg i t) (ps_mapping ps)))
+  end.
+
+Definition pset_init (prefix : string) (in_types : list ty) : pset :=
+  init_loop prefix 0 in_types (mkpset [] [] []).
+
+Inductive bop :=
+| BPrim (name : string) (args : list ty) (ret : ty)     (* addPrimitive(f, args, ret, name) ; addADF *)
+| BAdf (name : string) (args : list ty) (ret : ty)      (* addADF(adfset): no context entry, no assertion *)
+| BConst (c : cst) (ret : ty)                           (* addTerminal(value, ret) *)
+| BNamed (name : string) (ret : ty)                     (* addTerminal(value, ret, name=name) *)
+| BEph (name : string) (ret : ty).                      (* addEphemeralConstant(name, f, ret) *)
+
+(* value in (True, False): Python compares with ==, so 0, 1, 0.0, 1.0 qualify as well *)
+Definition is_truth_value (c : cst) : bool :=
+  match c with
+  | CBool _ => true
+  | CInt z => Z.eqb z 0 || Z.eqb z 1
+  | CLit s t => Nat.eqb t t_float && (String.eqb s "0.0" || String.eqb s "-0.0" || String.eqb s "1.0")
+  end.
+
+Definition put (k : string) (n : node) (ps : pset) : pset :=
+  mkpset (ps_arguments ps) (ps_argvalue ps) (dset k n (ps_mapping ps)).
+
+(* state: the set and the keys of pset.context (besides "__builtins__") *)
+Definition pset_add (o : bop) (st : pset * list string) : option (pset * list string) :=
+  let (ps, names) := st in
+  match o with
+  | BPrim name args ret =>
+      if existsb (String.eqb name) names then None      (* a different callable under the same name *)
+      else Some (put name (NPrim name args ret) ps, (names ++ [name])%list)
+  | BAdf name args ret => Some (put name (NPrim name args ret) ps, names)
+  | BConst c ret =>
+      Some (put (pystr c) (NConst c ret) ps,
+            if is_truth_value c && negb (existsb (String.eqb (pystr c)) names) then (names ++ [pystr c])%list else names)
+  | BNamed name ret =>
+      if existsb (String.eqb name) names then None
+      else Some (put name (NSym name ret) ps, (names ++ [name])%list)
+  | BEph name ret =>
+      match dget name (ps_mapping ps) with
+      | Some _ => None            (* re-registration of an existing name: outside the model *)
+      | None => Some (put name (NClass name ret) ps, names)
+      end
+  end.
+
+Fixpoint pset_build (ops : list bop) (st : pset * list string) : option (pset * list string) :=
+  match ops with
+  | [] => Some st
+  | o :: r => match pset_add o st with Some st' => pset_build r st' | None => None end
+  end.
+
 (* ------------------------------------------------------------------ format *)
 (* Primitive.format( *args) = "name({0}, {1}, ...)".format( *args), called with arity-many strings;
    Terminal.format() = conv_fct(value): str for symbolic terminals, repr otherwise. *)
